@@ -27,25 +27,28 @@ Definition vstep (w : wworld) (p : path) (v : vstate) (o : obs) : vstate :=
       | Some _ => v
       | None =>
           let ans := ww_readdir w p in
-          (Some (mkWd (Some (mkAcc [] None)) 0 []
+          (Some (mkWd (Some (mkAcc [] None [])) 0 []
                    (match ans with Some _ => SDirHasAccessedEntries | None => SDirUnreadable end)), Some ans)
       end
   | OGet _ n =>
       match d with
       | Some (Some names) =>
-          (set_acc r (fun a => mkAcc ((lower n, name_in (lower n) (map lower names)) :: ac_present a) (ac_all a)), d)
+          (set_acc r (fun a => mkAcc ((lower n, name_in (lower n) (map lower names)) :: ac_present a) (ac_all a) (ac_links a)), d)
       | _ => v
       end
   | OSortedKeys _ =>
       match d with
-      | Some (Some names) => (set_acc r (fun a => mkAcc (ac_present a) (Some (sort_names names))), d)
+      | Some (Some names) => (set_acc r (fun a => mkAcc (ac_present a) (Some (sort_names names)) (ac_links a)), d)
       | _ => v
       end
   | OReadFile _ =>
       let ans := ww_read w p in
       let r0 := match r with Some r0 => r0 | None => wd_zero end in
       let st := match ans with
-                | RdErr _ => SFileMissing
+                | RdErr _ => match r with
+                             | None => SFileMissing
+                             | Some _ => match wd_state r0 with SDirHasAccessedEntries => SDirHasAccessedEntries | _ => SFileMissing end
+                             end
                 | RdOk _ => match r with
                             | None => SFileNeedModKey
                             | Some _ => match wd_state r0 with SDirUnreadable => SFileNeedModKey | s => s end
@@ -60,7 +63,10 @@ Definition vstep (w : wworld) (p : path) (v : vstate) (o : obs) : vstate :=
       | Some r0 => (Some (mkWd (wd_acc r0) (wd_contents r0) (mk_key ans)
                             (match wd_state r0 with SFileNeedModKey => SFileHasModKey | s => s end)), d)
       end
-  | OKind _ _ => v
+  | OKind _ n =>
+      if ww_islink w p n
+      then (set_acc r (fun a => mkAcc (ac_present a) (ac_all a) ((n, ww_eval w p n) :: ac_links a)), d)
+      else v
   end.
 
 Lemma lookup_cons_eq {A} p (x : A) l : lookup p ((p, x) :: l) = Some x.
@@ -68,7 +74,7 @@ Proof. simpl. now rewrite Z.eqb_refl. Qed.
 
 Lemma view_step_same w f o : view (obs_path o) (step_obs w f o) = vstep w (obs_path o) (view (obs_path o) f) o.
 Proof.
-  unfold view. destruct o as [d|d n|d|p|p|d n]; cbn [obs_path step_obs vstep]; [| | | | |reflexivity].
+  unfold view. destruct o as [d|d n|d|p|p|d n]; cbn [obs_path step_obs vstep].
   - unfold op_readdir. destruct (lookup d (wf_dirs f)) as [x|] eqn:E; [now rewrite E|].
     cbn [wf_data wf_dirs]. now rewrite !lookup_cons_eq.
   - unfold op_get. destruct (lookup d (wf_dirs f)) as [[names|]|] eqn:E; try (now rewrite E).
@@ -79,6 +85,9 @@ Proof.
     destruct (wd_acc r) as [a|]; [|now rewrite R, E]. cbn [wf_data wf_dirs]. now rewrite lookup_cons_eq, E.
   - unfold op_readfile. destruct (lookup p (wf_data f)) as [r|]; cbn [wf_data wf_dirs negb]; rewrite lookup_cons_eq; reflexivity.
   - unfold op_modkey. destruct (lookup p (wf_data f)) as [r|]; cbn [wf_data wf_dirs]; rewrite lookup_cons_eq; reflexivity.
+  - unfold op_kind. destruct (ww_islink w d n); [|reflexivity].
+    unfold upd_acc, set_acc. destruct (lookup d (wf_data f)) as [r|] eqn:R; [|now rewrite R].
+    destruct (wd_acc r) as [a|]; [|now rewrite R]. cbn [wf_data wf_dirs]. now rewrite lookup_cons_eq.
 Qed.
 
 Lemma view_step_other w f o p : obs_path o <> p -> view p (step_obs w f o) = view p f.
@@ -86,7 +95,7 @@ Proof.
   intro Hne. unfold view.
   assert (L : forall A (x : A) l, lookup p ((obs_path o, x) :: l) = lookup p l)
     by (intros; now apply lookup_cons_ne).
-  destruct o as [d|d n|d|q|q|d n]; cbn [obs_path step_obs] in *; [| | | | |reflexivity].
+  destruct o as [d|d n|d|q|q|d n]; cbn [obs_path step_obs] in *.
   - unfold op_readdir. destruct (lookup d (wf_dirs f)); [reflexivity|]. cbn [wf_data wf_dirs]. now rewrite !L.
   - unfold op_get. destruct (lookup d (wf_dirs f)) as [[names|]|]; try reflexivity.
     unfold upd_acc. destruct (lookup d (wf_data f)) as [r|]; [|reflexivity].
@@ -96,6 +105,9 @@ Proof.
     destruct (wd_acc r); [|reflexivity]. cbn [wf_data wf_dirs]. now rewrite L.
   - unfold op_readfile. destruct (lookup q (wf_data f)); cbn [wf_data wf_dirs]; now rewrite L.
   - unfold op_modkey. destruct (lookup q (wf_data f)); cbn [wf_data wf_dirs]; now rewrite L.
+  - unfold op_kind. destruct (ww_islink w d n); [|reflexivity].
+    unfold upd_acc. destruct (lookup d (wf_data f)) as [r|]; [|reflexivity].
+    destruct (wd_acc r); [|reflexivity]. cbn [wf_data wf_dirs]. now rewrite L.
 Qed.
 
 Definition proj (p : path) (log : list obs) : list obs := filter (fun o => obs_path o =? p) log.
@@ -225,82 +237,169 @@ Definition is_dir_op (o : obs) : bool :=
 
 Definition is_kind_op (o : obs) : bool := match o with OKind _ _ => true | _ => false end.
 
+Definition is_file_op (o : obs) : bool :=
+  match o with OReadFile _ | OModKey _ => true | _ => false end.
+
+Lemma link_map_complete l : forall seen k b,
+  In (k, b) l -> name_in k seen = false -> exists b', In (k, b') (link_map l seen).
+Proof.
+  induction l as [|[k0 b0] l IH]; intros seen k b Hin Hs; [contradiction|].
+  cbn [link_map]. destruct Hin as [H|H].
+  - inversion H; subst. rewrite Hs. exists b. now left.
+  - destruct (name_in k0 seen) eqn:S.
+    + now apply (IH seen k b).
+    + destruct (name_eqb k k0) eqn:E.
+      * apply name_eqb_eq in E. subst. exists b0. now left.
+      * destruct (IH (k0 :: seen) k b H) as (b' & Hb').
+        { unfold name_in in *. simpl. rewrite E. exact Hs. }
+        exists b'. now right.
+Qed.
+
+Lemma link_map_sub l : forall seen x, In x (link_map l seen) -> In x l.
+Proof.
+  induction l as [|[k0 b0] l IH]; intros seen x H; [contradiction|].
+  cbn [link_map] in H. destruct (name_in k0 seen).
+  - right. eapply IH; eauto.
+  - destruct H as [H|H]; [now left|right; eapply IH; eauto].
+Qed.
+
+(* a listable directory cannot be read as a file and is not a regular file, but stat succeeds on it *)
+Definition dir_coh (w : wworld) (p : path) : Prop :=
+  ww_readdir w p <> None ->
+  (exists e, ww_read w p = RdErr e) /\ (forall e, ww_modkey w p <> MKErr e) /\ ww_isfile w p = false.
+
 (* ---------- one directory ---------- *)
 Section Dir.
   Variables (w w' : wworld) (p : path).
+  Hypothesis Hdc : dir_coh w p.
+  Hypothesis Hdc' : dir_coh w' p.
 
   Definition dir_state (ans : option (list name)) : wstate :=
     match ans with Some _ => SDirHasAccessedEntries | None => SDirUnreadable end.
 
+  (* which observations may follow the first ReadDirectory of the path: the
+     directory observations, and - when the path really is a listable
+     directory - also reads of the same path as a file (they fail, and since
+     the fix for finding F they leave the directory record in place) *)
+  Definition dir_step_ok (o : obs) : Prop :=
+    is_dir_op o = true \/ (is_file_op o = true /\ ww_readdir w p <> None).
+
   (* invariant of the view of a directory path after its first ReadDirectory,
      relative to the observations processed so far *)
   Definition dir_inv (v : vstate) (done : list obs) : Prop :=
-    exists a,
-      v = (Some (mkWd (Some a) 0 [] (dir_state (ww_readdir w p))), Some (ww_readdir w p)) /\
+    exists r a,
+      v = (Some r, Some (ww_readdir w p)) /\ wd_acc r = Some a /\ wd_state r = dir_state (ww_readdir w p) /\
       (forall k b names, In (k, b) (ac_present a) -> ww_readdir w p = Some names -> b = name_in k (map lower names)) /\
       (forall l names, ac_all a = Some l -> ww_readdir w p = Some names -> l = sort_names names) /\
       (forall d n names, In (OGet d n) done -> ww_readdir w p = Some names -> exists b, In (lower n, b) (ac_present a)) /\
-      (forall d names, In (OSortedKeys d) done -> ww_readdir w p = Some names -> ac_all a <> None).
+      (forall d names, In (OSortedKeys d) done -> ww_readdir w p = Some names -> ac_all a <> None) /\
+      (forall n ev, In (n, ev) (ac_links a) -> ev = ww_eval w p n) /\
+      (forall d n, In (OKind d n) done -> ww_islink w p n = true -> exists ev, In (n, ev) (ac_links a)).
+
+  Ltac keep_done Hin :=
+    let H := fresh in
+    apply in_app_or in Hin as [H|[H|[]]]; [eauto | try discriminate].
 
   Lemma dir_inv_step v done o :
-    is_dir_op o = true -> dir_inv v done -> dir_inv (vstep w p v o) (done ++ [o]).
+    dir_step_ok o -> dir_inv v done -> dir_inv (vstep w p v o) (done ++ [o]).
   Proof.
-    intros Hd (a & Hv & Hp & Ha & Hg & Hs). subst v.
-    destruct o as [d|d n|d|q|q|d n]; try discriminate; cbn [vstep]; unfold dir_inv.
-    4: { exists a. repeat split; auto.
-         - intros d0 n0 names Hin. apply in_app_or in Hin as [Hin|[Hin|[]]]; [eauto|discriminate].
-         - intros d0 names Hin. apply in_app_or in Hin as [Hin|[Hin|[]]]; [eauto|discriminate]. }
-    - exists a. repeat split; auto.
-      + intros d0 n names Hin. apply in_app_or in Hin as [Hin|[Hin|[]]]; [eauto|discriminate].
-      + intros d0 names Hin. apply in_app_or in Hin as [Hin|[Hin|[]]]; [eauto|discriminate].
-    - destruct (ww_readdir w p) as [names|] eqn:R.
-      + cbn [set_acc wd_acc wd_contents wd_key wd_state dir_state].
-        exists (mkAcc ((lower n, name_in (lower n) (map lower names)) :: ac_present a) (ac_all a)).
-        split; [reflexivity|]. cbn [ac_present ac_all]. repeat split.
+    intros Hd (r & a & Hv & Hacc & Hst & Hp & Ha & Hg & Hs & Hl & Hk). subst v.
+    destruct o as [d|d n|d|q|q|d n]; cbn [vstep]; unfold dir_inv.
+    - (* ReadDirectory again: cached *)
+      exists r, a. repeat split; auto.
+      + intros d0 n names Hin. keep_done Hin.
+      + intros d0 names Hin. keep_done Hin.
+      + intros d0 n Hin. keep_done Hin.
+    - (* Get *)
+      destruct (ww_readdir w p) as [names|] eqn:R.
+      + unfold set_acc. rewrite Hacc.
+        eexists. exists (mkAcc ((lower n, name_in (lower n) (map lower names)) :: ac_present a) (ac_all a) (ac_links a)).
+        split; [reflexivity|]. cbn [wd_acc wd_state ac_present ac_all ac_links]. repeat split; auto.
         * intros k b names0 [H|H] E; [inversion H; inversion E; subst; reflexivity | eauto].
-        * exact Ha.
         * intros d0 n0 names0 Hin E. apply in_app_or in Hin as [Hin|[Hin|[]]].
           -- destruct (Hg d0 n0 names0 Hin E) as (b & Hb). exists b. now right.
           -- inversion Hin; subst. eexists. now left.
-        * intros d0 names0 Hin E. apply in_app_or in Hin as [Hin|[Hin|[]]]; [eauto|discriminate].
-      + exists a. repeat split; auto; intros; discriminate.
-    - destruct (ww_readdir w p) as [names|] eqn:R.
-      + cbn [set_acc wd_acc wd_contents wd_key wd_state dir_state].
-        exists (mkAcc (ac_present a) (Some (sort_names names))).
-        split; [reflexivity|]. cbn [ac_present ac_all]. repeat split.
-        * exact Hp.
+        * intros d0 names0 Hin E. keep_done Hin.
+        * intros d0 n0 Hin. keep_done Hin.
+      + exists r, a. repeat split; auto; try (intros; discriminate).
+        intros d0 n0 Hin. keep_done Hin.
+    - (* SortedKeys *)
+      destruct (ww_readdir w p) as [names|] eqn:R.
+      + unfold set_acc. rewrite Hacc.
+        eexists. exists (mkAcc (ac_present a) (Some (sort_names names)) (ac_links a)).
+        split; [reflexivity|]. cbn [wd_acc wd_state ac_present ac_all ac_links]. repeat split; auto.
         * intros l names0 E1 E2. inversion E1; inversion E2; subst; reflexivity.
-        * intros d0 n0 names0 Hin E. apply in_app_or in Hin as [Hin|[Hin|[]]]; [eauto|discriminate].
+        * intros d0 n0 names0 Hin E. keep_done Hin.
         * intros; discriminate.
-      + exists a. repeat split; auto; intros; discriminate.
+        * intros d0 n0 Hin. keep_done Hin.
+      + exists r, a. repeat split; auto; try (intros; discriminate).
+        intros d0 n0 Hin. keep_done Hin.
+    - (* ReadFile on a listable directory: fails, the directory record stays *)
+      destruct Hd as [Hd|[_ Hne]]; [discriminate|].
+      destruct (Hdc Hne) as ((e & He) & _). rewrite He.
+      destruct (ww_readdir w p) as [names|] eqn:R; [|contradiction].
+      cbn [dir_state] in Hst. rewrite Hst.
+      eexists. exists a. split; [reflexivity|]. cbn [wd_acc wd_state]. repeat split; auto.
+      + intros d0 n names0 Hin. keep_done Hin.
+      + intros d0 names0 Hin. keep_done Hin.
+      + intros d0 n Hin. keep_done Hin.
+    - (* ModKey on a listable directory *)
+      destruct Hd as [Hd|[_ Hne]]; [discriminate|].
+      destruct (ww_readdir w p) as [names|] eqn:R; [|contradiction].
+      cbn [dir_state] in Hst. rewrite Hst.
+      eexists. exists a. split; [reflexivity|]. cbn [wd_acc wd_state]. repeat split; auto.
+      + intros d0 n names0 Hin. keep_done Hin.
+      + intros d0 names0 Hin. keep_done Hin.
+      + intros d0 n Hin. keep_done Hin.
+    - (* Entry.Kind: a symlink's target is remembered *)
+      destruct (ww_islink w p n) eqn:L.
+      + unfold set_acc. rewrite Hacc.
+        eexists. exists (mkAcc (ac_present a) (ac_all a) ((n, ww_eval w p n) :: ac_links a)).
+        split; [reflexivity|]. cbn [wd_acc wd_state ac_present ac_all ac_links]. repeat split; auto.
+        * intros d0 n0 names0 Hin E. keep_done Hin.
+        * intros d0 names0 Hin E. keep_done Hin.
+        * intros n0 ev [H|H]; [inversion H; subst; reflexivity | eauto].
+        * intros d0 n0 Hin L0. apply in_app_or in Hin as [Hin|[Hin|[]]].
+          -- destruct (Hk d0 n0 Hin L0) as (ev & Hev). exists ev. now right.
+          -- inversion Hin; subst. eexists. now left.
+      + exists r, a. repeat split; auto.
+        * intros d0 n0 names0 Hin E. keep_done Hin.
+        * intros d0 names0 Hin E. keep_done Hin.
+        * intros d0 n0 Hin L0. apply in_app_or in Hin as [Hin|[Hin|[]]]; [eauto|].
+          inversion Hin; subst. congruence.
   Qed.
 
   Lemma dir_inv_fold ops : forall v done,
-    forallb is_dir_op ops = true -> dir_inv v done -> dir_inv (fold_left (vstep w p) ops v) (done ++ ops).
+    (forall o, In o ops -> dir_step_ok o) -> dir_inv v done -> dir_inv (fold_left (vstep w p) ops v) (done ++ ops).
   Proof.
     induction ops as [|o ops IH]; intros v done Hd Hi; [now rewrite app_nil_r|].
-    cbn [forallb] in Hd. apply andb_true_iff in Hd as [H1 H2]. cbn [fold_left].
+    cbn [fold_left].
     replace (done ++ o :: ops) with ((done ++ [o]) ++ ops) by (rewrite <- app_assoc; reflexivity).
-    apply IH; [exact H2|]. now apply dir_inv_step.
+    apply IH; [intros o' H; apply Hd; now right|]. apply dir_inv_step; [apply Hd; now left|exact Hi].
   Qed.
 
   Lemma dir_inv_start : dir_inv (vstep w p (None, None) (OReadDir p)) [OReadDir p].
   Proof.
-    cbn [vstep]. exists (mkAcc [] None). split; [reflexivity|]. cbn [ac_present ac_all].
+    cbn [vstep]. eexists. exists (mkAcc [] None []). split; [reflexivity|]. cbn [wd_acc wd_state ac_present ac_all ac_links].
     repeat split; try (intros; contradiction); try (intros; discriminate).
     - intros d n names [H|[]]; discriminate.
     - intros d names [H|[]]; discriminate.
+    - intros d n [H|[]]; discriminate.
   Qed.
 
-  (* the observations of one directory are covered by its record *)
+  (* the directory, per-name, listing and same-path file observations are covered by the record *)
   Lemma dir_covered v done r :
     dir_inv v done -> fst v = Some r -> dirty1 w' p (finalize1 w p r) = false ->
-    forall o, In o done -> obs_path o = p -> is_dir_op o = true -> is_kind_op o = false -> answer_of w o = answer_of w' o.
+    forall o, In o done -> obs_path o = p -> dir_step_ok o -> is_kind_op o = false -> answer_of w o = answer_of w' o.
   Proof.
-    intros (a & Hv & Hp & Ha & Hg & Hs) Hr Hc o Hin Hpath Hd Hnk. subst v. simpl in Hr. inversion Hr; subst r; clear Hr.
-    unfold finalize1, dirty1 in Hc. cbn [wd_state wd_acc] in Hc.
+    intros (r0 & a & Hv & Hacc & Hst & Hp & Ha & Hg & Hs & Hl & Hk) Hr Hc o Hin Hpath Hd Hnk. subst v.
+    simpl in Hr. inversion Hr; subst r0; clear Hr.
+    assert (Hfin : finalize1 w p r = r).
+    { unfold finalize1. rewrite Hst. destruct (ww_readdir w p); reflexivity. }
+    rewrite Hfin in Hc. unfold dirty1 in Hc. rewrite Hst, Hacc in Hc.
     destruct (ww_readdir w p) as [names|] eqn:R; cbn [dir_state] in Hc.
-    - cbn in Hc. destruct (ww_readdir w' p) as [names'|] eqn:R'; [|discriminate].
+    - destruct (ww_readdir w' p) as [names'|] eqn:R'; [|discriminate].
+      apply orb_false_iff in Hc as [Hc _].
       assert (Hmem : forall n, In (OGet p n) done -> name_in (lower n) (map lower names) = name_in (lower n) (map lower names')).
       { intros n Hn. destruct (ac_all a) as [l|] eqn:A.
         - apply negb_false_iff in Hc. apply names_eqb_eq in Hc.
@@ -309,24 +408,51 @@ Section Dir.
           destruct (present_map_complete _ [] _ _ Hb eq_refl) as (b' & Hb').
           pose proof (present_map_sub _ _ _ Hb') as Hb''.
           rewrite (Hp _ _ names Hb'' eq_refl) in Hb'.
-          destruct (existsb _ _) eqn:Ex in Hc; [discriminate|].
-          rewrite <- Bool.not_true_iff_false in Ex. rewrite existsb_exists in Ex.
+          rewrite <- Bool.not_true_iff_false in Hc. rewrite existsb_exists in Hc.
           destruct (Bool.eqb (name_in (lower n) (map lower names)) (name_in (lower n) (map lower names'))) eqn:Q.
           + now apply Bool.eqb_prop in Q.
-          + exfalso. apply Ex. eexists. split; [exact Hb'|]. cbn [fst snd]. now rewrite Q. }
-      destruct o as [d|d n|d|q|q|d n]; try discriminate; cbn [obs_path] in Hpath; subst d; cbn [answer_of]; rewrite R, R'.
+          + exfalso. apply Hc. eexists. split; [exact Hb'|]. cbn [fst snd]. now rewrite Q. }
+      assert (Hne : ww_readdir w p <> None) by (rewrite R; discriminate).
+      assert (Hne' : ww_readdir w' p <> None) by (rewrite R'; discriminate).
+      destruct (Hdc Hne) as ((e & He) & Hm & _). destruct (Hdc' Hne') as ((e' & He') & Hm' & _).
+      destruct o as [d|d n|d|q|q|d n]; try discriminate; cbn [obs_path] in Hpath; subst; cbn [answer_of]; rewrite ?R, ?R'.
       + reflexivity.
       + now rewrite Hmem.
       + destruct (ac_all a) as [l|] eqn:A.
         * apply negb_false_iff in Hc. apply names_eqb_eq in Hc. rewrite Hc. f_equal. f_equal. symmetry. now apply (Ha l names).
         * exfalso. now apply (Hs p names Hin eq_refl).
-    - cbn in Hc. destruct (ww_readdir w' p) as [names'|] eqn:R'; [discriminate|].
-      destruct o as [d|d n|d|q|q|d n]; try discriminate; cbn [obs_path] in Hpath; subst d; cbn [answer_of]; now rewrite R, R'.
+      + now rewrite He, He'.
+      + destruct (ww_modkey w p) eqn:A1; destruct (ww_modkey w' p) eqn:A2; try reflexivity;
+          solve [exfalso; eapply Hm; eauto | exfalso; eapply Hm'; eauto].
+    - destruct (ww_readdir w' p) as [names'|] eqn:R'; [discriminate|].
+      destruct Hd as [Hd|[_ Hne]]; [|rewrite R in Hne; contradiction].
+      destruct o as [d|d n|d|q|q|d n]; try discriminate; cbn [obs_path] in Hpath; subst; cbn [answer_of]; now rewrite R, R'.
+  Qed.
+
+  (* since the fix for findings G/G2: a symlink whose kind was asked still
+     resolves to the same thing *)
+  Lemma dir_links_covered v done r :
+    dir_inv v done -> fst v = Some r -> dirty1 w' p (finalize1 w p r) = false ->
+    ww_readdir w p <> None ->
+    forall n, In (OKind p n) done -> ww_islink w p n = true -> ww_eval w' p n = ww_eval w p n.
+  Proof.
+    intros (r0 & a & Hv & Hacc & Hst & Hp & Ha & Hg & Hs & Hl & Hk) Hr Hc Hne n Hin L. subst v.
+    simpl in Hr. inversion Hr; subst r0; clear Hr.
+    assert (Hfin : finalize1 w p r = r).
+    { unfold finalize1. rewrite Hst. destruct (ww_readdir w p); reflexivity. }
+    rewrite Hfin in Hc. unfold dirty1 in Hc. rewrite Hst, Hacc in Hc.
+    destruct (ww_readdir w p) as [names|] eqn:R; [|contradiction]. cbn [dir_state] in Hc.
+    destruct (ww_readdir w' p) as [names'|] eqn:R'; [|discriminate].
+    apply orb_false_iff in Hc as [_ Hc].
+    destruct (Hk p n Hin L) as (ev & Hev).
+    destruct (link_map_complete _ [] _ _ Hev eq_refl) as (ev' & Hev').
+    pose proof (link_map_sub _ _ _ Hev') as Hev''. rewrite (Hl _ _ Hev'') in Hev'.
+    rewrite <- Bool.not_true_iff_false in Hc. rewrite existsb_exists in Hc.
+    destruct (option_eqb Z.eqb (ww_eval w' p n) (ww_eval w p n)) eqn:Q.
+    - destruct (ww_eval w' p n), (ww_eval w p n); simpl in Q; try discriminate; [apply Z.eqb_eq in Q; now subst|reflexivity].
+    - exfalso. apply Hc. eexists. split; [exact Hev'|]. cbn [fst snd]. now rewrite Q.
   Qed.
 End Dir.
-
-Definition is_file_op (o : obs) : bool :=
-  match o with OReadFile _ | OModKey _ => true | _ => false end.
 
 (* a path observed as a file is, in a given world, either a readable regular
    file (stat and read succeed) or absent (both fail): no permission errors and
@@ -382,7 +508,7 @@ Section File.
           -- destruct Hi as [[S K]|S]; rewrite S; [now left | now right].
           -- destruct Hi as [[S _]|[[S _]|[S K]]]; rewrite S; [left; auto | right; left; auto | right; right; auto].
           -- exfalso; eapply Hm; eauto.
-        * destruct (Hfalse eq_refl) as ((e & He) & _). now rewrite He.
+        * destruct (Hfalse eq_refl) as ((e & He) & _). rewrite He. cbn [wd_state]. now rewrite Hi.
     - (* ModKey *)
       destruct Hv as [[Hv Hd]|(r & Hv & Hi)]; subst v.
       + subst done. unfold file_inv. eexists. split; [reflexivity|]. cbn [wd_state wd_key wd_contents].
@@ -479,11 +605,20 @@ End File.
 
 (* ---------- all paths together ---------- *)
 
-(* a path is observed either as a directory (its first observation is the
-   ReadDirectory that yields the entries the later Get/SortedKeys calls use)
-   or as a file; never both (finding F is what happens otherwise) *)
-Definition wf_path (log : list obs) (p : path) : Prop :=
-  (exists rest, proj p log = OReadDir p :: rest /\ forallb is_dir_op rest = true) \/
+(* How one path may be observed in a log.  Either its first observation is the
+   ReadDirectory that yields the entries the later Get / SortedKeys / Kind
+   calls use, followed by directory observations and - if the path really is a
+   listable directory on w - also by reads of the same path as a file (the
+   shape of finding F, harmless since its fix); or it is observed only as a
+   file.  Still excluded: a ReadDirectory AFTER file observations of the same
+   path, and file observations of a path whose ReadDirectory failed: the
+   recorder keeps one record per path and the later observation replaces the
+   earlier one.  (For a regular file that is also probed as a directory the
+   resolver reports "Cannot read directory ...: not a directory" and the build
+   fails whatever the file contains, so no successful build has that shape.) *)
+Definition wf_path (w : wworld) (log : list obs) (p : path) : Prop :=
+  (exists rest, proj p log = OReadDir p :: rest /\
+     forall o, In o rest -> is_dir_op o = true \/ (is_file_op o = true /\ ww_readdir w p <> None)) \/
   forallb is_file_op (proj p log) = true.
 
 Definition file_hyps (w w' : wworld) (p : path) : Prop :=
@@ -491,158 +626,263 @@ Definition file_hyps (w w' : wworld) (p : path) : Prop :=
   (forall k, ww_modkey w p = MKOk k -> ww_modkey w' p = MKOk k -> ww_read w' p = ww_read w p) /\
   (forall k, ww_modkey w' p = MKOk k -> k <> []).
 
-Lemma watch_covers_nonkind w w' log :
-  (forall o, In o log -> wf_path log (obs_path o)) ->
-  (forall o, In o log -> is_file_op o = true -> file_hyps w w' (obs_path o)) ->
-  clean w' (finalize w (record w log)) = true ->
-  forall o, In o log -> is_kind_op o = false -> answer_of w o = answer_of w' o.
-Proof.
-  intros Hwf Hfile Hclean o Hin Hnk.
-  remember (obs_path o) as p eqn:Hp.
-  assert (Hproj : In o (proj p log)) by (apply filter_In; split; [exact Hin|subst p; apply Z.eqb_refl]).
-  pose proof (view_record w p log) as Hview.
-  pose proof (Hwf o Hin) as W. rewrite <- Hp in W.
-  destruct W as [(rest & Hops & Hrest)|Hf].
-  - (* directory *)
-    rewrite Hops in Hview, Hproj. cbn [fold_left] in Hview.
-    pose proof (dir_inv_fold w p rest _ _ Hrest (dir_inv_start w p)) as Hinv.
+Section All.
+  Variables (w w' : wworld) (log : list obs).
+  Hypothesis Hwf : forall o, In o log -> wf_path w log (obs_path o).
+  (* paths observed only as files *)
+  Hypothesis Hfile : forall o, In o log -> forallb is_file_op (proj (obs_path o) log) = true -> file_hyps w w' (obs_path o).
+  (* a listable directory is not readable as a file, and stat works on it *)
+  Hypothesis Hdir : forall p, dir_coh w p /\ dir_coh w' p.
+  Hypothesis Hclean : clean w' (finalize w (record w log)) = true.
+
+  (* the state of a path whose first observation is ReadDirectory *)
+  Lemma dir_path_inv p rest :
+    proj p log = OReadDir p :: rest ->
+    (forall o, In o rest -> is_dir_op o = true \/ (is_file_op o = true /\ ww_readdir w p <> None)) ->
+    exists r, dir_inv w p (view p (record w log)) ([OReadDir p] ++ rest) /\
+              fst (view p (record w log)) = Some r /\ dirty1 w' p (finalize1 w p r) = false.
+  Proof.
+    intros Hops Hrest. pose proof (view_record w p log) as Hview.
+    rewrite Hops in Hview. cbn [fold_left] in Hview.
+    pose proof (dir_inv_fold w p (proj1 (Hdir p)) rest _ _ Hrest (dir_inv_start w p)) as Hinv.
     rewrite <- Hview in Hinv.
-    pose proof Hinv as (a & Hv & Hrest').
-    assert (Hl : lookup p (wf_data (record w log)) = Some (mkWd (Some a) 0 [] (dir_state (ww_readdir w p)))).
-    { unfold view in Hv. now inversion Hv. }
-    pose proof (clean_spec w w' _ _ _ Hclean Hl) as Hd.
-    assert (Hdo : is_dir_op o = true).
-    { destruct Hproj as [H|H]; [now subst o|]. rewrite forallb_forall in Hrest. now apply Hrest. }
-    eapply (dir_covered w w' p (view p (record w log)) ([OReadDir p] ++ rest)).
-    + exact Hinv.
-    + rewrite Hv. reflexivity.
-    + exact Hd.
-    + exact Hproj.
-    + now symmetry.
-    + exact Hdo.
-    + exact Hnk.
-  - (* file *)
-    assert (Hfo : is_file_op o = true) by (rewrite forallb_forall in Hf; now apply Hf).
-    pose proof (Hfile o Hin Hfo) as C. rewrite <- Hp in C. destruct C as (C1 & C2 & C3 & C4).
-    assert (Hne : proj p log <> []) by (intro N; rewrite N in Hproj; contradiction).
-    pose proof (file_inv_fold w w' p C1 C3 (proj p log) (None, None) [] Hf Hne (or_introl (conj eq_refl eq_refl))) as Hinv.
-    rewrite <- Hview in Hinv. cbn [app] in Hinv.
-    pose proof Hinv as (r & Hv & Hi).
-    assert (Hl : lookup p (wf_data (record w log)) = Some r) by (unfold view in Hv; now inversion Hv).
-    pose proof (clean_spec w w' _ _ _ Hclean Hl) as Hd.
-    eapply (file_covered w w' p C1 C2 C3 C4 (view p (record w log)) (proj p log)).
-    + exact Hinv.
-    + rewrite Hv. reflexivity.
-    + exact Hd.
-    + exact Hproj.
-    + now symmetry.
-    + exact Hfo.
-Qed.
+    pose proof Hinv as (r & a & Hv & _).
+    exists r. split; [exact Hinv|]. split; [rewrite Hv; reflexivity|].
+    apply (clean_spec w w' _ _ _ Hclean). unfold view in Hv. now inversion Hv.
+  Qed.
+
+  Lemma watch_covers_nonkind :
+    forall o, In o log -> is_kind_op o = false -> answer_of w o = answer_of w' o.
+  Proof.
+    intros o Hin Hnk.
+    remember (obs_path o) as p eqn:Hp.
+    assert (Hproj : In o (proj p log)) by (apply filter_In; split; [exact Hin|subst p; apply Z.eqb_refl]).
+    pose proof (Hwf o Hin) as W. rewrite <- Hp in W.
+    destruct W as [(rest & Hops & Hrest)|Hf].
+    - (* directory *)
+      destruct (dir_path_inv p rest Hops Hrest) as (r & Hinv & Hr & Hd).
+      rewrite Hops in Hproj.
+      assert (Hok : dir_step_ok w p o).
+      { destruct Hproj as [H|H]; [subst o; now left|now apply Hrest]. }
+      eapply (dir_covered w w' p (proj1 (Hdir p)) (proj2 (Hdir p)) _ _ r Hinv Hr Hd o); auto.
+    - (* file *)
+      assert (Hfo : is_file_op o = true) by (rewrite forallb_forall in Hf; now apply Hf).
+      pose proof (Hfile o Hin) as C. rewrite <- Hp in C. destruct (C Hf) as (C1 & C2 & C3 & C4).
+      pose proof (view_record w p log) as Hview.
+      assert (Hne : proj p log <> []) by (intro N; rewrite N in Hproj; contradiction).
+      pose proof (file_inv_fold w w' p C1 C3 (proj p log) (None, None) [] Hf Hne (or_introl (conj eq_refl eq_refl))) as Hinv.
+      rewrite <- Hview in Hinv. cbn [app] in Hinv.
+      pose proof Hinv as (r & Hv & Hi).
+      assert (Hl : lookup p (wf_data (record w log)) = Some r) by (unfold view in Hv; now inversion Hv).
+      pose proof (clean_spec w w' _ _ _ Hclean Hl) as Hd.
+      eapply (file_covered w w' p C1 C2 C3 C4 (view p (record w log)) (proj p log)).
+      + exact Hinv.
+      + rewrite Hv. reflexivity.
+      + exact Hd.
+      + exact Hproj.
+      + now symmetry.
+      + exact Hfo.
+  Qed.
+
+  (* a symlink entry whose kind the build asked for resolves to the same thing on w' *)
+  Lemma watch_covers_links d n :
+    In (OKind d n) log -> ww_islink w d n = true -> ww_readdir w d <> None -> ww_eval w' d n = ww_eval w d n.
+  Proof.
+    intros Hin L Hne.
+    assert (Hproj : In (OKind d n) (proj d log)) by (apply filter_In; split; [exact Hin|apply Z.eqb_refl]).
+    destruct (Hwf _ Hin) as [(rest & Hops & Hrest)|Hf]; cbn [obs_path] in *.
+    - destruct (dir_path_inv d rest Hops Hrest) as (r & Hinv & Hr & Hd).
+      rewrite Hops in Hproj.
+      eapply (dir_links_covered w w' d _ _ r Hinv Hr Hd Hne n); [|exact L].
+      exact Hproj.
+    - rewrite forallb_forall in Hf. specialize (Hf _ Hproj). discriminate.
+  Qed.
+End All.
 
 (* ---------- entry kinds ----------
-   Entry.Kind / Entry.Symlink leave no watch record.  For a plain entry (no
-   symlink involved) the answer is nevertheless determined by observations
-   that ARE recorded, because of how the resolver uses it: the entry came from
-   a Get on the directory, an entry found to be a file is then read, an entry
-   found to be a directory is then listed. *)
+   The kind of an entry is the kind of what it resolves to: the entry itself
+   for a plain entry, the target for a symlink.  Since the fix for findings
+   G/G2 the target of a symlink is recorded and re-checked; the kind of the
+   resolved path is determined by observations that are recorded, because of
+   how the resolver uses an entry: it came from a Get on the directory, what
+   was found to be a file is then read, what was found to be a directory is
+   then listed. *)
+Definition target (child : path -> name -> path) (w : wworld) (d : path) (n : name) : option Z :=
+  if ww_islink w d n then ww_eval w d n else Some (child d n).
+
 Definition kind_hyps (child : path -> name -> path) (w : wworld) (d : path) (n : name) : Prop :=
-  snd (ww_kind w d n) = None /\                                   (* no symlink resolution *)
-  (fst (ww_kind w d n) = 2 <-> ww_isfile w (child d n) = true) /\
-  (fst (ww_kind w d n) = 1 <-> ww_readdir w (child d n) <> None) /\
-  (fst (ww_kind w d n) = 0 \/ fst (ww_kind w d n) = 1 \/ fst (ww_kind w d n) = 2) /\
-  (forall names, ww_readdir w d = Some names ->
-     (fst (ww_kind w d n) <> 0 <-> name_in (lower n) (map lower names) = true)) /\
-  (ww_readdir w d = None -> fst (ww_kind w d n) = 0).
+  (ww_kind w d n = 2 <-> exists t, target child w d n = Some t /\ ww_isfile w t = true) /\
+  (ww_kind w d n = 1 <-> exists t, target child w d n = Some t /\ ww_readdir w t <> None) /\
+  (ww_kind w d n = 0 \/ ww_kind w d n = 1 \/ ww_kind w d n = 2) /\
+  (* a plain entry has a kind iff it is listed, and resolves to itself *)
+  (ww_islink w d n = false ->
+     (forall names, ww_readdir w d = Some names ->
+        (ww_kind w d n <> 0 <-> name_in (lower n) (map lower names) = true)) /\
+     (ww_readdir w d = None -> ww_kind w d n = 0) /\
+     (ww_kind w d n <> 0 -> ww_eval w d n = Some (child d n)) /\
+     (ww_kind w d n = 0 -> ww_eval w d n = None)) /\
+  (* a symlink is an entry of a listable directory, never resolves to its own
+     path, and what it resolves to has a kind *)
+  (ww_islink w d n = true ->
+     ww_readdir w d <> None /\ ww_eval w d n <> Some (child d n) /\
+     (ww_eval w d n <> None -> ww_kind w d n <> 0)).
 
 Definition kind_companions (child : path -> name -> path) (log : list obs) (w : wworld) (d : path) (n : name) : Prop :=
   In (OGet d n) log /\
-  (fst (ww_kind w d n) = 2 -> In (OReadFile (child d n)) log) /\
-  (fst (ww_kind w d n) = 1 -> In (OReadDir (child d n)) log).
+  (ww_kind w d n = 2 -> exists t, target child w d n = Some t /\ In (OReadFile t) log) /\
+  (ww_kind w d n = 1 -> exists t, target child w d n = Some t /\ In (OReadDir t) log).
 
 Lemma watch_covers_observations_all (child : path -> name -> path) w w' log :
-  (forall o, In o log -> wf_path log (obs_path o)) ->
-  (forall o, In o log -> is_file_op o = true -> file_hyps w w' (obs_path o)) ->
+  (forall o, In o log -> wf_path w log (obs_path o)) ->
+  (forall o, In o log -> forallb is_file_op (proj (obs_path o) log) = true -> file_hyps w w' (obs_path o)) ->
+  (forall p, dir_coh w p /\ dir_coh w' p) ->
   (forall d n, In (OKind d n) log ->
-     kind_hyps child w d n /\ kind_hyps child w' d n /\ kind_companions child log w d n) ->
+     kind_hyps child w d n /\ kind_hyps child w' d n /\ kind_companions child log w d n /\
+     (* a plain entry is not replaced by a symlink of the same name (with a
+        usable mod key the inode in the key would change; with an unusable one
+        only the contents are compared) *)
+     (ww_islink w d n = false -> ww_islink w' d n = false)) ->
   clean w' (finalize w (record w log)) = true ->
   all_same w w' log = true.
 Proof.
-  intros Hwf Hfile Hkind Hclean. unfold all_same. apply forallb_forall. intros o Hin.
+  intros Hwf Hfile Hdir Hkind Hclean. unfold all_same. apply forallb_forall. intros o Hin.
   assert (E : answer_of w o = answer_of w' o); [|rewrite E; apply answer_eqb_refl].
-  destruct (is_kind_op o) eqn:K; [|now apply (watch_covers_nonkind w w' log)].
+  pose proof (watch_covers_nonkind w w' log Hwf Hfile Hdir Hclean) as NK.
+  destruct (is_kind_op o) eqn:K; [|now apply NK].
   destruct o as [d|d n|d|q|q|d n]; try discriminate.
-  destruct (Hkind d n Hin) as ((S1 & F1 & D1 & T1 & P1 & U1) & (S2 & F2 & D2 & T2 & P2 & U2) & (CG & CF & CD)).
-  pose proof (watch_covers_nonkind w w' log Hwf Hfile Hclean) as NK.
-  cbn [answer_of]. rewrite S1, S2. f_equal.
-  destruct T1 as [T1|[T1|T1]].
-  - (* not an entry (or neither file nor directory) on w: the Get observation pins presence *)
-    pose proof (NK (OGet d n) CG eq_refl) as G. cbn [answer_of] in G.
-    rewrite T1. symmetry.
-    destruct (ww_readdir w d) as [names|] eqn:R; destruct (ww_readdir w' d) as [names'|] eqn:R'; try discriminate.
-    + inversion G as [G1].
-      destruct (Z.eq_dec (fst (ww_kind w' d n)) 0) as [Z0|NZ]; [exact Z0|exfalso].
-      apply (P2 names' eq_refl) in NZ. rewrite <- G1 in NZ. apply (P1 names eq_refl) in NZ. contradiction.
-    + now apply U2.
-  - (* a directory on w: it was listed *)
-    pose proof (NK (OReadDir (child d n)) (CD T1) eq_refl) as G. cbn [answer_of] in G.
-    rewrite T1. symmetry. apply D2. apply D1 in T1.
-    destruct (ww_readdir w (child d n)); [|contradiction].
-    destruct (ww_readdir w' (child d n)); [discriminate|discriminate].
-  - (* a file on w: it was read *)
-    pose proof (NK (OReadFile (child d n)) (CF T1) eq_refl) as G. cbn [answer_of] in G.
-    rewrite T1. symmetry. apply F2. apply F1 in T1.
-    destruct (Hfile (OReadFile (child d n)) (CF (proj2 F1 T1)) eq_refl) as ((Ct & _) & (Ct' & Cf') & _).
-    cbn [obs_path] in *.
-    destruct (Ct T1) as ((c & Hc) & _). rewrite Hc in G.
-    destruct (ww_isfile w' (child d n)) eqn:I'; [reflexivity|exfalso].
-    destruct (Cf' eq_refl) as ((e & He) & _). rewrite He in G. discriminate.
+  destruct (Hkind d n Hin) as ((F1 & D1 & T1 & P1 & L1) & (F2 & D2 & T2 & P2 & L2) & (CG & CF & CD) & Hstay).
+  (* the observations on the resolved path t pin its kind *)
+  assert (Hfile_t : forall t, In (OReadFile t) log -> ww_isfile w t = true -> ww_isfile w' t = true).
+  { intros t Ht It. pose proof (NK (OReadFile t) Ht eq_refl) as G. cbn [answer_of] in G.
+    assert (Hff : forallb is_file_op (proj t log) = true).
+    { destruct (Hwf _ Ht) as [(rest & Hops & Hrest)|Hf]; [|exact Hf]. cbn [obs_path] in *.
+      exfalso. assert (Hp : In (OReadFile t) (proj t log)) by (apply filter_In; split; [exact Ht|apply Z.eqb_refl]).
+      rewrite Hops in Hp. destruct Hp as [Hp|Hp]; [discriminate|].
+      destruct (Hrest _ Hp) as [Hd|[_ Hne]]; [discriminate|].
+      (* a listable directory is not a regular file *)
+      destruct (proj1 (Hdir t) Hne) as (_ & _ & Hnf). congruence. }
+    destruct (Hfile _ Ht Hff) as ((Ct & _) & (_ & Cf') & _). cbn [obs_path] in *.
+    destruct (Ct It) as ((c & Hc) & _). rewrite Hc in G.
+    destruct (ww_isfile w' t) eqn:I'; [reflexivity|exfalso].
+    destruct (Cf' eq_refl) as ((e & He) & _). rewrite He in G. discriminate. }
+  assert (Hdir_t : forall t, In (OReadDir t) log -> ww_readdir w t <> None -> ww_readdir w' t <> None).
+  { intros t Ht Nt. pose proof (NK (OReadDir t) Ht eq_refl) as G. cbn [answer_of] in G.
+    destruct (ww_readdir w t); [|contradiction]. destruct (ww_readdir w' t); [discriminate|discriminate]. }
+  cbn [answer_of].
+  destruct (ww_islink w d n) eqn:Lk.
+  - (* a symlink on w *)
+    destruct (L1 eq_refl) as (Hne & Hself & Hres).
+    pose proof (watch_covers_links w w' log Hwf Hdir Hclean d n Hin Lk Hne) as Hev.
+    destruct (ww_eval w d n) as [t|] eqn:Ev.
+    + (* resolved to t: still a symlink, to t *)
+      assert (Lk' : ww_islink w' d n = true).
+      { destruct (ww_islink w' d n) eqn:Lk'; [reflexivity|exfalso].
+        destruct (P2 eq_refl) as (_ & _ & Pe & Pn).
+        destruct (Z.eq_dec (ww_kind w' d n) 0) as [Z0|NZ].
+        - rewrite (Pn Z0) in Hev. discriminate.
+        - rewrite (Pe NZ) in Hev. apply Hself. now rewrite Hev. }
+      rewrite Lk', Hev. f_equal.
+      assert (Tg : target child w d n = Some t) by (unfold target; now rewrite Lk, Ev).
+      assert (Tg' : target child w' d n = Some t) by (unfold target; now rewrite Lk', Hev).
+      destruct T1 as [T1|[T1|T1]].
+      * exfalso. apply (Hres ltac:(discriminate)). exact T1.
+      * destruct (CD T1) as (t0 & Tg0 & Hlog). rewrite Tg in Tg0. inversion Tg0; subst t0.
+        apply D1 in T1 as Hex. destruct Hex as (t1 & Tg1 & Hn1). rewrite Tg in Tg1. inversion Tg1; subst t1.
+        rewrite T1. symmetry. apply D2. exists t. split; [exact Tg'|]. now apply Hdir_t.
+      * destruct (CF T1) as (t0 & Tg0 & Hlog). rewrite Tg in Tg0. inversion Tg0; subst t0.
+        apply F1 in T1 as Hex. destruct Hex as (t1 & Tg1 & Hi1). rewrite Tg in Tg1. inversion Tg1; subst t1.
+        rewrite T1. symmetry. apply F2. exists t. split; [exact Tg'|]. now apply Hfile_t.
+    + (* dangling on w: nothing resolves on w' either *)
+      assert (K0 : ww_kind w d n = 0).
+      { destruct T1 as [T1|[T1|T1]]; [exact T1| |]; exfalso.
+        - apply D1 in T1 as (t & Tg & _). unfold target in Tg. rewrite Lk, Ev in Tg. discriminate.
+        - apply F1 in T1 as (t & Tg & _). unfold target in Tg. rewrite Lk, Ev in Tg. discriminate. }
+      assert (K0' : ww_kind w' d n = 0).
+      { destruct (ww_islink w' d n) eqn:Lk'.
+        - destruct T2 as [T2|[T2|T2]]; [exact T2| |]; exfalso.
+          + apply D2 in T2 as (t & Tg & _). unfold target in Tg. rewrite Lk', Hev in Tg. discriminate.
+          + apply F2 in T2 as (t & Tg & _). unfold target in Tg. rewrite Lk', Hev in Tg. discriminate.
+        - destruct (P2 eq_refl) as (_ & _ & Pe & _).
+          destruct (Z.eq_dec (ww_kind w' d n) 0) as [Z0|NZ]; [exact Z0|]. rewrite (Pe NZ) in Hev. discriminate. }
+      rewrite K0, K0', Hev. now destruct (ww_islink w' d n).
+  - (* a plain entry on w stays plain *)
+    rewrite (Hstay eq_refl). f_equal.
+    destruct (P1 eq_refl) as (Pp1 & Pu1 & _ & _). destruct (P2 (Hstay eq_refl)) as (Pp2 & Pu2 & _ & _).
+    assert (Tg : target child w d n = Some (child d n)) by (unfold target; now rewrite Lk).
+    assert (Tg' : target child w' d n = Some (child d n)) by (unfold target; now rewrite (Hstay eq_refl)).
+    destruct T1 as [T1|[T1|T1]].
+    + pose proof (NK (OGet d n) CG eq_refl) as G. cbn [answer_of] in G.
+      rewrite T1. symmetry.
+      destruct (ww_readdir w d) as [names|] eqn:R; destruct (ww_readdir w' d) as [names'|] eqn:R'; try discriminate.
+      * inversion G as [G1].
+        destruct (Z.eq_dec (ww_kind w' d n) 0) as [Z0|NZ]; [exact Z0|exfalso].
+        apply (Pp2 names' eq_refl) in NZ. rewrite <- G1 in NZ. apply (Pp1 names eq_refl) in NZ. contradiction.
+      * now apply Pu2.
+    + destruct (CD T1) as (t0 & Tg0 & Hlog). rewrite Tg in Tg0. inversion Tg0; subst t0.
+      apply D1 in T1 as Hex. destruct Hex as (t1 & Tg1 & Hn1). rewrite Tg in Tg1. inversion Tg1; subst t1.
+      rewrite T1. symmetry. apply D2. exists (child d n). split; [exact Tg'|]. now apply Hdir_t.
+    + destruct (CF T1) as (t0 & Tg0 & Hlog). rewrite Tg in Tg0. inversion Tg0; subst t0.
+      apply F1 in T1 as Hex. destruct Hex as (t1 & Tg1 & Hi1). rewrite Tg in Tg1. inversion Tg1; subst t1.
+      rewrite T1. symmetry. apply F2. exists (child d n). split; [exact Tg'|]. now apply Hfile_t.
 Qed.
 
-(* ---------- the statement without the "never both" hypothesis is false ----------
-   finding F: the directory 1 is listed, entry "b.ts" is looked up and absent,
-   then path 1 is read as a file (EISDIR): the record of the directory becomes
-   stateFileMissing; on w', where b.ts exists, no predicate is dirty although the
-   Get observation answers differently *)
+(* ---------- the three former counterexamples ----------
+   Before the fixes 0717f2b (F) and dbd24f7 (G, G2) each of these was a
+   machine-checked refutation of the unrestricted statement.  The model follows
+   the fixed recorder, the logs are inside the domain of the theorem, and the
+   edits are now reported dirty. *)
 Definition f_bts : name := [98; 46; 116; 115].
 Definition f_bjs : name := [98; 46; 106; 115].
-Definition f_w : wworld :=
-  mkWw (fun p => if p =? 1 then Some [f_bjs] else None) (fun _ => RdErr 21) (fun p => if p =? 1 then MKOk [1;1] else MKErr 2) (fun _ => false) (fun _ _ => (0, None)).
-Definition f_w' : wworld :=
-  mkWw (fun p => if p =? 1 then Some [f_bjs; f_bts] else None) (fun _ => RdErr 21) (fun p => if p =? 1 then MKOk [1;2] else MKErr 2) (fun _ => false) (fun _ _ => (0, None)).
+Definition f_world (names : list name) (key : Z) : wworld :=
+  mkWw (fun p => if p =? 1 then Some names else None) (fun _ => RdErr 21)
+       (fun p => if p =? 1 then MKOk [1; key] else MKErr 2) (fun _ => false)
+       (fun _ _ => 0) (fun _ _ => false) (fun _ _ => None).
+Definition f_w : wworld := f_world [f_bjs] 1.
+Definition f_w' : wworld := f_world [f_bjs; f_bts] 2.
+(* the directory 1 is listed, "b.ts" is looked up and absent, then path 1 is read as a file (EISDIR) *)
 Definition f_log : list obs := [OReadDir 1; OGet 1 f_bts; OModKey 1; OReadFile 1].
 
-Lemma watch_unrestricted_refuted :
-  clean f_w' (finalize f_w (record f_w f_log)) = true /\ all_same f_w f_w' f_log = false.
+Lemma finding_F_shape_in_domain : forall o, In o f_log -> wf_path f_w f_log (obs_path o).
+Proof.
+  intros o H. assert (E : obs_path o = 1) by (simpl in H; intuition (subst; reflexivity)). rewrite E.
+  left. eexists. split; [vm_compute; reflexivity|].
+  intros o' [H'|[H'|[H'|[]]]]; subst o'; [left; reflexivity | right | right]; (split; [reflexivity|vm_compute; discriminate]).
+Qed.
+
+Lemma finding_F_shape_detected :
+  dirty_paths f_w' (finalize f_w (record f_w f_log)) = [1] /\ all_same f_w f_w' f_log = false.
 Proof. split; vm_compute; reflexivity. Qed.
 
-(* finding G: directory 1 has the entry link.js, a symlink.  On w it resolves
-   to file 5 (x.js), which the build reads; on w' the link was re-pointed to
-   file 6 (y.js).  Nothing that was recorded changed. *)
+(* G: link.js in directory 1 is a symlink; on w it resolves to file 5, which the
+   build reads; on w' it was re-pointed to file 6 *)
 Definition g_link : name := [108; 105; 110; 107; 46; 106; 115].
 Definition g_world (target : Z) : wworld :=
   mkWw (fun p => if p =? 1 then Some [g_link] else None)
        (fun p => if (p =? 5) || (p =? 6) then RdOk (p * 10) else RdErr 2)
        (fun p => if (p =? 5) || (p =? 6) then MKOk [p; 1] else MKErr 2)
        (fun p => (p =? 5) || (p =? 6))
-       (fun d n => if (d =? 1) && name_eqb n g_link then (2, Some target) else (0, None)).
+       (fun d n => if (d =? 1) && name_eqb n g_link then 2 else 0)
+       (fun d n => (d =? 1) && name_eqb n g_link)
+       (fun d n => if (d =? 1) && name_eqb n g_link then Some target else None).
 Definition g_log : list obs := [OReadDir 1; OGet 1 g_link; OKind 1 g_link; OModKey 5; OReadFile 5].
 
-Lemma watch_symlink_retarget_refuted :
-  clean (g_world 6) (finalize (g_world 5) (record (g_world 5) g_log)) = true /\
-  all_same (g_world 5) (g_world 6) g_log = false.
+Lemma finding_G_shape_detected :
+  dirty_paths (g_world 6) (finalize (g_world 5) (record (g_world 5) g_log)) = [1] /\
+  clean (g_world 5) (finalize (g_world 5) (record (g_world 5) g_log)) = true.
 Proof. split; vm_compute; reflexivity. Qed.
 
-(* finding G2: the link is dangling on w (kind 0: EvalSymlinks fails) and the
-   build stops there; on w' its target exists *)
+(* G2: the link is dangling on w (EvalSymlinks fails, kind 0) and the build stops there; on w' the target exists *)
 Definition g2_world (dangling : bool) : wworld :=
   mkWw (fun p => if p =? 1 then Some [g_link] else None)
        (fun p => if (p =? 5) && negb dangling then RdOk 50 else RdErr 2)
        (fun p => if (p =? 5) && negb dangling then MKOk [5; 1] else MKErr 2)
        (fun p => (p =? 5) && negb dangling)
-       (fun d n => if (d =? 1) && name_eqb n g_link then (if dangling then (0, None) else (2, Some 5)) else (0, None)).
+       (fun d n => if (d =? 1) && name_eqb n g_link && negb dangling then 2 else 0)
+       (fun d n => (d =? 1) && name_eqb n g_link)
+       (fun d n => if (d =? 1) && name_eqb n g_link && negb dangling then Some 5 else None).
 Definition g2_log : list obs := [OReadDir 1; OGet 1 g_link; OKind 1 g_link].
 
-Lemma watch_dangling_symlink_refuted :
-  clean (g2_world false) (finalize (g2_world true) (record (g2_world true) g2_log)) = true /\
-  all_same (g2_world true) (g2_world false) g2_log = false.
+Lemma finding_G2_shape_detected :
+  dirty_paths (g2_world false) (finalize (g2_world true) (record (g2_world true) g2_log)) = [1] /\
+  clean (g2_world true) (finalize (g2_world true) (record (g2_world true) g2_log)) = true.
 Proof. split; vm_compute; reflexivity. Qed.
